@@ -116,6 +116,11 @@ def touch(o, d, partner=None):
         except Exception:
             pass
     if partner is not None:
+        for x_, y_ in ((o, partner), (partner, o)):
+            try:
+                x_ in y_
+            except Exception:
+                pass
         for fn in (G.intersection, G.distance, G.angle, G.parallel, G.orthogonal):
             for x, y in ((o, partner), (partner, o)):
                 try:
@@ -284,7 +289,7 @@ def hist_cell(case):
     return out
 
 
-def run_inter(fn, x, y, exp, tag, mu, keybase):
+def run_inter(fn, x, y, exp, tag, mu, keybase, descs=None):
     """call fn(x, y) at the boundary, compare with the oracle's `exp`.
     Records into the Multi `mu`.  Returns the library result (or None)."""
     res, exc, impure = M.call(fn, x, y)
@@ -303,7 +308,74 @@ def run_inter(fn, x, y, exp, tag, mu, keybase):
         bad = M.invariants(res) if res is not None else []
         if bad:
             mu.fail("%s:%s:malformed-result" % (keybase, tag), "%s returned a malformed %s: %s" % (tag, kname(got), bad[0]))
+    if descs is not None and mu.viol is None and res is not None and hasattr(res, "move"):
+        _RESULT_TICK[0] += 1
+        if _RESULT_TICK[0] % 6 == 0:
+            _result_moved(fn, x, y, res, descs, tag, mu, keybase)
     return res
+
+
+_RESULT_TICK = [0]
+_PART_ATTRS = ("convex_polygons", "points", "point_set", "segment_set", "pyramid_set")
+_PART_SINGLE = ("start_point", "end_point", "point", "p", "line", "plane", "center_point", "sv", "dv", "n", "vector")
+
+
+def _is_operand_or_public_part(res, o):
+    if res is o:
+        return True
+    for name in _PART_SINGLE:
+        if getattr(o, name, None) is res:
+            return True
+    for name in _PART_ATTRS:
+        coll = getattr(o, name, None)
+        if coll is not None:
+            try:
+                if any(item is res for item in coll):
+                    return True
+            except TypeError:
+                pass
+    return False
+
+
+def _result_moved(fn, x, y, res, descs, tag, mu, keybase):
+    """the caller moves the object a query returned (its own, unless it shares any object with an operand) and asks again.  What the operands then are is read back from their own public
+    attributes; the second answer must be the exact intersection of THAT."""
+    G = load()
+    if _is_operand_or_public_part(res, x) or _is_operand_or_public_part(res, y) or M.shares_state(res, [x, y]):
+        # results may be (parts of) the operands - the pinned library hands out an operand itself, the face a plane lies
+        # in, or the very Point object that is a vertex of a polyhedron; moving those is the caller changing the operand
+        return
+    try:
+        res.move(G.Vector(1.25, -0.5, 2.0))
+    except Exception:
+        return
+    HIST_STATS["results_moved_by_the_caller"] += 1
+    mu.cell("history:result-moved-by-the-caller-then-asked-again")
+    na, nb = reread(x, descs[0]), reread(y, descs[1])
+    if na is None or nb is None:
+        for o, nm in ((x, "first"), (y, "second")):
+            bad = M.invariants(o)
+            if bad:
+                mu.fail("%s:%s:operand-damaged-by-moving-the-result" % (keybase, tag),
+                        "after the caller moved the object returned by %s the %s operand is no longer consistent: %s" % (tag, nm, bad[0]))
+        return
+    K.reset()
+    try:
+        exp2 = K.inter(na, nb)
+    except Exception:
+        return
+    if not core.admitted():
+        return
+    res2, exc, _ = M.call(fn, x, y)
+    if exc is not None:
+        mu.fail("%s:%s:raises-%s/after-the-caller-moved-an-earlier-result" % (keybase, tag, M.classify_exc(exc)),
+                "%s raised %s: %s when asked again after the caller had moved the first result" % (tag, type(exc).__name__, exc))
+        return
+    same, why = same_set(lower(res2), exp2)
+    if not same:
+        mu.fail("%s:%s:answer-changes-after-the-caller-moved-an-earlier-result" % (keybase, tag),
+                "%s asked again after the caller moved the first result: %s; the operands (read back) give %s, got %s" % (
+                    tag, why, show_short(exp2), show_short(lower(res2))))
 
 
 def show_short(d, limit=300):
